@@ -1,0 +1,160 @@
+//! Entry points for the external verification harness. Compiled only with the
+//! cargo feature `verif-hooks`; nothing here is used by the library itself and
+//! every function only forwards to existing crate-private code.
+
+use crate::Interrupt;
+use crate::num::{hooks_bigrat, hooks_biguint};
+
+/// `(is_small, little-endian limbs)`
+pub type RawUint = (bool, Vec<u64>);
+/// `(negative, numerator, denominator)`
+pub type RawRat = (bool, RawUint, RawUint);
+
+/// Unary `BigUint` operation by name.
+///
+/// # Errors
+/// The `Display` text of the `FendError` the operation returned.
+pub fn biguint_op1<I: Interrupt>(op: &str, a: &RawUint, int: &I) -> Result<Vec<RawUint>, String> {
+	hooks_biguint::op1(op, a, int)
+}
+
+/// Binary `BigUint` operation by name.
+///
+/// # Errors
+/// The `Display` text of the `FendError` the operation returned.
+pub fn biguint_op2<I: Interrupt>(
+	op: &str,
+	a: &RawUint,
+	b: &RawUint,
+	int: &I,
+) -> Result<Vec<RawUint>, String> {
+	hooks_biguint::op2(op, a, b, int)
+}
+
+/// `BigUint::fibonacci`.
+///
+/// # Errors
+/// The `Display` text of the `FendError`.
+pub fn biguint_fibonacci<I: Interrupt>(n: usize, int: &I) -> Result<RawUint, String> {
+	hooks_biguint::fibonacci(n, int)
+}
+
+/// `BigUint::to_words`.
+///
+/// # Errors
+/// The `Display` text of the `FendError`.
+pub fn biguint_to_words<I: Interrupt>(a: &RawUint, int: &I) -> Result<String, String> {
+	hooks_biguint::to_words(a, int)
+}
+
+/// `Format for BigUint` in a plain base, with its `exact` flag.
+///
+/// # Errors
+/// The `Display` text of the `FendError`.
+pub fn biguint_format<I: Interrupt>(
+	a: &RawUint,
+	base: u8,
+	sf_limit: Option<usize>,
+	int: &I,
+) -> Result<(String, bool), String> {
+	hooks_biguint::format(a, base, sf_limit, int)
+}
+
+/// Unary `BigRat` operation by name; returns the raw value and its `exact` flag.
+///
+/// # Errors
+/// The `Display` text of the `FendError`.
+pub fn bigrat_op1<I: Interrupt>(op: &str, a: &RawRat, int: &I) -> Result<(RawRat, bool), String> {
+	hooks_bigrat::op1(op, a, int)
+}
+
+/// Binary `BigRat` operation by name; returns the raw value and its `exact` flag.
+///
+/// # Errors
+/// The `Display` text of the `FendError`.
+pub fn bigrat_op2<I: Interrupt>(
+	op: &str,
+	a: &RawRat,
+	b: &RawRat,
+	int: &I,
+) -> Result<(RawRat, bool), String> {
+	hooks_bigrat::op2(op, a, b, int)
+}
+
+/// `Ord for BigRat` as -1, 0, 1.
+#[must_use]
+pub fn bigrat_cmp(a: &RawRat, b: &RawRat) -> i8 {
+	hooks_bigrat::cmp(a, b)
+}
+
+/// `BigRat::into_f64`, as the bit pattern of the double.
+///
+/// # Errors
+/// The `Display` text of the `FendError`.
+pub fn bigrat_into_f64<I: Interrupt>(a: &RawRat, int: &I) -> Result<u64, String> {
+	hooks_bigrat::into_f64(a, int)
+}
+
+/// `BigRat::from_f64` on the double with the given bit pattern.
+///
+/// # Errors
+/// The `Display` text of the `FendError`.
+pub fn bigrat_from_f64<I: Interrupt>(bits: u64, int: &I) -> Result<RawRat, String> {
+	hooks_bigrat::from_f64(bits, int)
+}
+
+/// `BigRat::try_as_usize`.
+///
+/// # Errors
+/// The `Display` text of the `FendError`.
+pub fn bigrat_try_as_usize<I: Interrupt>(a: &RawRat, int: &I) -> Result<usize, String> {
+	hooks_bigrat::try_as_usize(a, int)
+}
+
+/// `BigRat::try_as_i64`.
+///
+/// # Errors
+/// The `Display` text of the `FendError`.
+pub fn bigrat_try_as_i64<I: Interrupt>(a: &RawRat, int: &I) -> Result<i64, String> {
+	hooks_bigrat::try_as_i64(a, int)
+}
+
+/// `BigRat::terminates_in_base`.
+///
+/// # Errors
+/// The `Display` text of the `FendError`.
+pub fn bigrat_terminates_in_base<I: Interrupt>(
+	a: &RawRat,
+	base: u8,
+	int: &I,
+) -> Result<bool, String> {
+	hooks_bigrat::terminates_in_base(a, base, int)
+}
+
+/// `Format for BigRat`; `style` is one of "fraction", "mixed", "float", "exact",
+/// "auto", "dp:N", "sf:N". Returns the text and the `exact` flag.
+///
+/// # Errors
+/// The `Display` text of the `FendError`.
+#[allow(clippy::too_many_arguments)]
+pub fn bigrat_format<I: Interrupt>(
+	a: &RawRat,
+	style: &str,
+	base: u8,
+	with_prefix: bool,
+	term: &'static str,
+	use_parens_if_fraction: bool,
+	comma: bool,
+	int: &I,
+) -> Result<(String, bool), String> {
+	hooks_bigrat::format(
+		a,
+		style,
+		base,
+		with_prefix,
+		term,
+		use_parens_if_fraction,
+		comma,
+		int,
+	)
+}
